@@ -581,6 +581,61 @@ impl Family for InterruptedReads {
     }
 }
 
+/// Conversations of every command kind: all histories of `depth` commands over PREPARE, long data,
+/// EXECUTE (with the long data or inline), CLOSE, two queries of different length and PING, as a
+/// well-behaved client encodes them, each under every set of <= `max_cuts` cut positions behind the
+/// handshake. What the shim sees must not depend on where the reads end, whatever the commands
+/// are and whatever came before them.
+fn kind_walks(depth: usize, max_cuts: usize) -> Vec<Scen> {
+    use super::model::{Registry, Routed};
+    use super::registry::{encode, Action, Bind};
+    #[derive(Clone)]
+    enum W {
+        A(Action),
+        Raw(&'static str, Vec<u8>),
+    }
+    let alpha = vec![
+        W::A(Action::Prepare { id: 1, n: 1, ok: true }),
+        W::A(Action::Long { id: 1, param: 0, chunk: 1 }),
+        W::A(Action::Exec { id: 1, bind: Bind::C, null_first: false, shim_ignores: 0 }),
+        W::A(Action::Close { id: 1 }),
+        W::Raw("query", with_byte(COM_QUERY, b"SELECT 42")),
+        W::Raw("long query", with_byte(COM_QUERY, b"SELECT a, b, c FROM t WHERE d = 'e' LIMIT 9")),
+        W::Raw("ping", vec![COM_PING]),
+    ];
+    let n = alpha.len() as u64;
+    let mut v = Vec::new();
+    'walk: for idx in 0..n.pow(depth as u32) {
+        let d = digits(idx, &vec![n; depth]);
+        let mut reg = Registry::default();
+        let mut cmds = Vec::new();
+        let mut exp = vec![auth_cb()];
+        let mut names = Vec::new();
+        for (step, i) in d.iter().enumerate() {
+            let (name, p) = match &alpha[*i as usize] {
+                W::A(a) => (a.short(), encode(&reg, a, step)),
+                W::Raw(nm, p) => (nm.to_string(), p.clone()),
+            };
+            match reg.route(&p) {
+                Routed::Cb(cb) => exp.push(cb),
+                Routed::NoCb => {}
+                _ => continue 'walk, // the history ends the connection: C10's subject
+            }
+            names.push(name);
+            cmds.push(ClientCmd::new(p));
+        }
+        // the last command must be one the shim sees, so that a mis-framed tail is visible
+        let (c, cb) = small_cmd(COM_QUERY, b"tail");
+        cmds.push(c);
+        exp.push(cb);
+        let mut sc = Scen::new(format!("H + {:?} + query, every set of <= {} cuts", names, max_cuts), Conv::new(cmds), exp);
+        let all: Vec<usize> = (sc.ends[0] + 1..sc.stream.len()).collect();
+        sc.sets = Some(subsets_upto(&all, max_cuts));
+        v.push(sc);
+    }
+    v
+}
+
 pub fn build(quick: bool) -> Check {
     let small = ChunkFamily::new("small-all-compositions", small_sequences(if quick { 17 } else { 23 }, if quick { 3 } else { 4 }));
     let phase = ChunkFamily::new("handshake-phase-boundary", phase_boundary(quick));
@@ -590,10 +645,14 @@ pub fn build(quick: bool) -> Check {
     let sizes = ChunkFamily::new("payload-size-classes", size_classes(quick));
     let deep = ChunkFamily::new("deep-pipeline", deep_pipeline(quick));
     let ltm = ChunkFamily::new("large-then-many", large_then_many(quick));
+    let mut walks: Vec<Box<dyn Family>> = Vec::new();
+    for (d, c) in if quick { vec![(5, 1), (3, 2)] } else { vec![(6, 1), (4, 2), (3, 3)] } {
+        walks.push(Box::new(ChunkFamily::new(&format!("command-kind-walks-depth-{}-cuts-{}", d, c), kind_walks(d, c))));
+    }
     Check {
         id: "C01",
         level: "model_checking",
-        rule: "every execution is one complete run of the real run_on over a scripted transport; schedules are sets of cut positions no read() may cross (all 2^n sets for streams of <= 17 (quick) / 23 (thorough) command bytes; all sets of <= 2-3 cuts for longer streams; <= 1-2 cuts around fragment headers for 16-32 MiB payloads; single-packet payloads around 2^15, 2^16, 2^17, 2^20 and up to 3 MB with <= 1-2 cuts; 300/1200 pipelined commands with a cut at (every fifth /) every position and under uniform read sizes 1..4097; a command of 70 KB..1.1 MB (thorough 5 KB..9 MB) followed by 40 / 1000 small commands in the same burst with <= 1 (thorough 2) cuts around the end of the large command and the next headers; every single cut of H + 4 commands with ErrorKind::Interrupted returned once by each read (what reaches the shim must stay a byte-exact prefix). Non-trivial = some read ends strictly inside a packet header or one read spans two messages.".into(),
+        rule: "every execution is one complete run of the real run_on over a scripted transport; schedules are sets of cut positions no read() may cross (all 2^n sets for streams of <= 17 (quick) / 23 (thorough) command bytes; all sets of <= 2-3 cuts for longer streams; <= 1-2 cuts around fragment headers for 16-32 MiB payloads; single-packet payloads around 2^15, 2^16, 2^17, 2^20 and up to 3 MB with <= 1-2 cuts; 300/1200 pipelined commands with a cut at (every fifth /) every position and under uniform read sizes 1..4097; a command of 70 KB..1.1 MB (thorough 5 KB..9 MB) followed by 40 / 1000 small commands in the same burst with <= 1 (thorough 2) cuts around the end of the large command and the next headers; every single cut of H + 4 commands with ErrorKind::Interrupted returned once by each read (what reaches the shim must stay a byte-exact prefix); every history of 5 (thorough: 6) commands over PREPARE / long data / EXECUTE / CLOSE / two queries / PING as a well-behaved client encodes it, followed by a query, under every single cut behind the handshake, histories of 3 (4) under every pair of cuts (thorough: of 3 under every triple). Non-trivial = some read ends strictly inside a packet header or one read spans two messages.".into(),
         assumptions: vec![
             "1-byte reads over multi-megabyte payloads are not run (the implementation re-parses per read); they are covered exhaustively at small sizes".into(),
             "the oracle is the shim's callback log plus a strict client-side decode of all replies".into(),
@@ -601,7 +660,11 @@ pub fn build(quick: bool) -> Check {
         bounds: json!({"small_max_command_bytes": if quick {17} else {23}, "phase_max_cuts": if quick {2} else {3}, "threshold_max_cuts": 2, "fragment_max_cuts": if quick {1} else {2}}),
         exhaustive: true,
         caps_hit: vec![],
-        families: vec![Box::new(small), Box::new(phase), Box::new(thr), Box::new(frag), Box::new(sizes), Box::new(deep), Box::new(ltm), Box::new(InterruptedReads::new())],
+        families: {
+            let mut f: Vec<Box<dyn Family>> = vec![Box::new(small), Box::new(phase), Box::new(thr), Box::new(frag), Box::new(sizes), Box::new(deep), Box::new(ltm), Box::new(InterruptedReads::new())];
+            f.extend(walks);
+            f
+        },
         required: vec!["interrupted_reads", "reads_ending_inside_a_header", "reads_spanning_two_messages", "executions_with_more_than_3_reads", "uniform_read_sizes"],
     }
 }
